@@ -446,3 +446,114 @@ def valid_normalized_shape(ctx, prog):
     consts = [const_value(strip(sy.rvalue(s["rv"]))) for i, j, s in f.stmts() if s["s"] == "assign" and s["lhs"]["l"] == 0 and not s["lhs"]["p"]]
     ok = ok and all(v == 0 for v in consts)
     ctx.ob(R, "is_valid_and_normalized = is_valid() && every mask has no run of MAX_SEQUENCE_SIZE+1 bits (has_sequences_const)", ok, why, f.loc())
+
+
+def valid_content(ctx, prog):
+    """`BlockHashPositionArrayData::is_valid`: the per-mask test is `(total & mask) == 0` on the union of the masks seen BEFORE this one,
+    `total` is updated by `|= mask` and by nothing else, a non-false result needs every test passed and `total == u64_lsb_ones(len)`,
+    `len > 64` is refused.  Two code shapes are read: the test as a closure handed to `all` over `representation().iter()`, and a loop
+    in the body itself."""
+    from ..sym import path_conds, bool_atom
+    R = "SA-FORMULA"
+    f = prog.fn("BlockHashPositionArrayData::is_valid")
+    ctx.visit(f)
+    sy = Sym(f)
+    notes = []
+    alls = [(i, t) for i, t in f.calls() if callee_of(t).endswith("Iterator>::all") or callee_of(t).endswith("Iterator::all")]
+    per_mask = union = False
+    acc_txt = None
+    if len(alls) == 1:
+        i, t = alls[0]
+        src = canon(strip(sy.origin(strip(sy.operand(t["args"][0])))))
+        src = re.sub(r"::<[^()]*>\(", "(", src)
+        over = re.match(r"^core::slice::<impl \[T\]>::iter\(\(?internals::compare::position_array::BlockHashPositionArrayData::representation\(param:self\)( as &\[u64\]\))?\)$", src) is not None
+        cl = strip(sy.operand(t["args"][1]))
+        g = prog.get(cl[1][len("Closure:"):]) if cl[0] == "agg" and cl[1].startswith("Closure:") else None
+        notes.append("all(..) over %s" % src[:100])
+        if g is not None and over and len(cl[2]) == 1:
+            ctx.visit(g)
+            gs = Sym(g)
+            ret = canon(strip(gs.origin(strip(gs.local(0)))))
+            stores = [(canon(strip(gs.place(s["lhs"]))) if hasattr(gs, "place") else None, canon(strip(gs.rvalue(s["rv"]))))
+                      for _, _, s in g.stmts() if s["s"] == "assign" and s["lhs"]["p"]]
+            notes.append("per mask: %s; stores %s" % (ret, stores))
+            per_mask = ret in ("Eq(BitAnd(param:1.0,param:2),0)", "Eq(0,BitAnd(param:1.0,param:2))")
+            union = len(stores) == 1 and stores[0][1] == "BitOr(param:1.0,param:2)" and not list(g.calls())
+            acc = strip(cl[2][0])
+            # the captured variable: starts at 0, and the body itself does not write it after that
+            if acc[0] == "local":
+                l = acc[1]
+                acc_txt = canon(acc)
+                defs = f.defs.get(l, [])
+                inits = [d for d in defs if d[2] == "rv" and const_value(strip(sy.rvalue(d[3]))) == 0]
+                union = union and len(defs) == 1 and len(inits) == 1
+    else:
+        # loop form: one accumulator local; in the loop `acc & m == 0` is tested (failing -> false) before `acc = acc | m`
+        accs = {}
+        for bi, j, s in f.stmts():
+            if s["s"] == "assign" and not s["lhs"]["p"] and s["rv"]["r"] == "bin" and s["rv"]["op"] in ("BitOr", "BitXor", "BitAnd", "Add", "Sub") \
+                    and f.locals[s["lhs"]["l"]]["ty"] == "u64" and len(f.defs.get(s["lhs"]["l"], [])) > 1:
+                accs.setdefault(s["lhs"]["l"], []).append((bi, s))
+        notes.append("loop form, accumulators %s" % sorted(accs))
+        if len(accs) == 1:
+            l, ups = list(accs.items())[0]
+            acc_txt = canon(("local", l, f.locals[l].get("name") or "_%d" % l))
+            defs = f.defs.get(l, [])
+            inits = [d for d in defs if d[2] == "rv" and const_value(strip(sy.rvalue(d[3]))) == 0]
+            if len(ups) == 1 and len(defs) == 2 and len(inits) == 1:
+                bi, s = ups[0]
+                up = strip(sy.rvalue(s["rv"]))
+                m = None
+                if up[0] == "bin" and up[1] == "BitOr":
+                    ops = [strip(up[2]), strip(up[3])]
+                    me = [o for o in ops if not (o[0] == "local" and o[1] == l)]
+                    if len(me) == 1 and len(ops) == 2:
+                        m = me[0]
+                if m is not None:
+                    union = True
+                    pair = sorted([acc_txt, canon(m)])
+                    for c in path_conds(f, sy, bi):
+                        a = bool_atom(c)
+                        if a and a[0] == "Eq":
+                            x, y = strip(a[1]), strip(a[2])
+                            if const_value(x) == 0:
+                                x, y = y, x
+                            if const_value(y) == 0 and x[0] == "bin" and x[1] == "BitAnd" and sorted([canon(strip(x[2])), canon(strip(x[3]))]) == pair:
+                                per_mask = True
+                    notes.append("update %s under %s" % (canon(up), per_mask))
+    # results: every non-false one is `acc == u64_lsb_ones(len as u32)` reached with the scan passed and len <= 64
+    res_ok = True
+    nres = 0
+    for bi, j, s in f.stmts():
+        if not (s["s"] == "assign" and s["lhs"]["l"] == 0 and not s["lhs"]["p"]):
+            continue
+        v = strip(sy.rvalue(s["rv"]))
+        if const_value(v) == 0:
+            continue
+        nres += 1
+        txt = re.sub(r"::<[^()]*>\(", "(", canon(v))
+        lenx = r"\(internals::compare::position_array::BlockHashPositionArrayData::len\(param:self\) as u32\)"
+        if acc_txt is None or not re.match(r"^Eq\((%s,internals::utils::u64_lsb_ones\(%s\)|internals::utils::u64_lsb_ones\(%s\),%s)\)$" % (re.escape(acc_txt), lenx, lenx, re.escape(acc_txt)), txt):
+            res_ok = False
+            notes.append("result %s" % txt[:160])
+            continue
+        conds = path_conds(f, sy, bi)
+        guard = scan = False
+        for c in conds:
+            a = bool_atom(c)
+            if a is None:
+                continue
+            t2 = re.sub(r"::<[^()]*>\(", "(", canon(("bin", a[0], a[1], a[2]))) if a[0] != "truth" else None
+            if t2 in ("Le(internals::compare::position_array::BlockHashPositionArrayData::len(param:self),64)",
+                      "Ge(64,internals::compare::position_array::BlockHashPositionArrayData::len(param:self))"):
+                guard = True
+            if a[0] == "truth" and a[2] is True and strip(a[1])[0] == "call" and strip(a[1])[1].endswith("::all"):
+                scan = True
+        if len(alls) != 1:
+            scan = per_mask   # loop form: the failing test leaves the loop with `false`; checked below through the constant results
+        res_ok = res_ok and guard and scan
+        if not (guard and scan):
+            notes.append("result site bb%d: len guard %s, scan passed %s" % (bi, guard, scan))
+    ok = per_mask and union and res_ok and nres == 1
+    ctx.ob(R, "is_valid: per mask `(total & mask) == 0` on the union of the EARLIER masks, `total |= mask` and nothing else, result `total == u64_lsb_ones(len)` with every test passed and len <= 64",
+           ok, "; ".join(notes)[:700] if not ok else "per-mask test, union update, single non-false result", f.loc())
